@@ -43,7 +43,11 @@ def run_group(groups, prop, tier, repo, root, only_quick=False):
             except Exception as e:
                 out.append(dict(harness=g + "/*", status="error", kind="complete", detail="splice failed: %s" % e))
                 continue
-            hs = [H for H in G["harnesses"] if not (only_quick and not H.get("quick"))]
+            # `quick` is True (quick tier of every property that runs this group) or the list of properties whose quick tier runs it
+            def _is_quick(H):
+                q = H.get("quick")
+                return q is True or (isinstance(q, (list, tuple)) and prop in q)
+            hs = [H for H in G["harnesses"] if not (only_quick and not _is_quick(H))]
             if hs:
                 out.extend(_run_many(node, root, prop, g, G, hs))
         shutil.rmtree(os.path.join(WORK, "node"), ignore_errors=True)
